@@ -77,6 +77,8 @@ C05_NoLoss == Pol = "block" => h.dropped = <<>> /\ m.dropped = m.chDropped
 (* C06: drop policies *)
 C06_NeverBlocks == Pol # "block" =>
     \A t \in Threads : pc[t] \in {"send", "sfull", "spop", "sent"} /\ loc[t].ch = "D" => CanLeave(t)
+C06_RetryFindsRoom ==    \* after DropOldest's pop the retry always finds room: there is one sender per channel at a time
+    \A t \in Threads : pc[t] = "spop" => Len(chan[loc[t].ch].q) < ChanCap(loc[t].ch)
 C06_Conservation ==
     /\ NoDup(h.recvd) /\ NoDup(h.dropped)
     /\ SetOfSeq(h.recvd) \cap SetOfSeq(h.dropped) = {}
